@@ -357,6 +357,8 @@ def random_cfg(rng, alg=None, family="roomy", nobs=None, maxn=4):
         cfg["decoy"] = rng.randint(1, 4)      # another simulation paused mid-run in the same process
     if rng.random() < 0.25:
         cfg["fracRate"] = True               # data rates spelled with a fraction in the file
+    if rng.random() < 0.2:
+        cfg["prelude"] = True                # an earlier simulation with the same policy objects, larger cluster
     cfg["extra"] = extra
     if alg == "adv":
         cfg["advRounds"] = rng.randint(1, 4)
